@@ -11902,7 +11902,8 @@ C_<TN_, TA_, SG_, TH_, TS_...>::deepReenter(PlanControl& control) noexcept {
 	else {
 		SubStates::wideExit	  (control, active);
 
-		active  = requested;
+		resumable = active;
+		active	  = requested;
 
 		if (requested == resumable) {
 			resumable = INVALID_PRONG;
